@@ -268,8 +268,9 @@ class RunWorld:
                 kw["memory_cache_mb"] = budget_mb or 0.002
             st = FilesystemStorageBackend(path=os.path.join(self.dir, "store"), **kw)
         self.storage = st
-        m.Environment.set(Environment(name="cp", base_dir=self.dir, repos=[
-            ConfigurationRepository(name="r", clusters={"cp": FunctionCluster(name="cp", storage=st)})]))
+        self.env = Environment(name="cp", base_dir=self.dir, repos=[
+            ConfigurationRepository(name="r", clusters={"cp": FunctionCluster(name="cp", storage=st)})])
+        m.Environment.set(self.env)
         self.model = Model("runner") if use_model else None
         if self.model:
             for ln in model_lines(prog):
@@ -285,8 +286,14 @@ class RunWorld:
         if self.backend == "fs+cache":
             kw["memory_cache_mb"] = self.budget_mb or 0.002
         self.storage = FilesystemStorageBackend(path=os.path.join(self.dir, "store"), **kw)
-        self.m.Environment.set(Environment(name="cp", base_dir=self.dir, repos=[
-            ConfigurationRepository(name="r", clusters={"cp": FunctionCluster(name="cp", storage=self.storage)})]))
+        self.env = Environment(name="cp", base_dir=self.dir, repos=[
+            ConfigurationRepository(name="r", clusters={"cp": FunctionCluster(name="cp", storage=self.storage)})])
+        self.m.Environment.set(self.env)
+
+    def activate(self):
+        """the environment is process-global: several worlds may be alive at once, each op runs in its own"""
+        if self.m.Environment.get() is not self.env:
+            self.m.Environment.set(self.env)
 
     def close(self):
         self.m.Environment.set(self.orig_env)
@@ -297,6 +304,7 @@ class RunWorld:
 
     # -- real side -----------------------------------------------------------------------------
     def fn(self, f, ctx="i", ign=False, prev=False):
+        self.activate()
         fn = getattr(self.mod, "f%d" % f)
         if ctx != "i":
             fn = fn.with_context_args({} if ctx == 0 else {"k": ctx})
@@ -317,6 +325,7 @@ class RunWorld:
         """op = ["call", f, a, ctx, ign, prev] | ["batch", f, [a..], ctx, ign, prev, rf] | ["forget", f, a, c]
                 | ["memento", f, a, c] ; returns (real canonical line, model canonical line)"""
         k = op[0]
+        self.activate()
         REC.calls.clear()
         if k == "call":
             _, f, a, ctx, ign, prev = op
@@ -373,6 +382,7 @@ class RunWorld:
         """the property's reference: the same call on a null storage (nothing found, nothing kept)"""
         from twosigma.memento import Environment, ConfigurationRepository, FunctionCluster
         from twosigma.memento.storage_null import NullStorageBackend
+        self.activate()
         cur = self.m.Environment.get()
         self.m.Environment.set(Environment(name="cpn", base_dir=self.dir, repos=[
             ConfigurationRepository(name="r", clusters={"cp": FunctionCluster(name="cp", storage=NullStorageBackend())})]))
